@@ -503,6 +503,8 @@ func lkString(lk LockState) string {
 func checkC08(p *Prog, r *Result, tier string) {
 	r.Rule("C08.R1", "lockset rule over all call paths: for every field of shared index, schema, settings, schema-table, cache or pending-store memory, every write context and every other context touching the same field exclude each other (handle lock writer/any holder, a common package mutex, or the container's own lock); objects allocated or decoded in the current call tree are exempt until published; fields never written after publication may be read freely", 60)
 	r.Rule("C08.R2", "every file mutation (write, remove, rename) happens under the handle lock in write mode", 4)
+	r.Rule("C08.R3", "check and act in one critical section: in every write entry (single, batch, chunked) each mutation of the live index happens while the verdicts it relies on (successful Validate, successful scratch-index acceptance of the batch) are fresh, i.e. the handle lock was not released since they were obtained", 2)
+	checkCheckThenAct(p, computeClosures(p), r, "C08.R3")
 	r.NotDecided = []string{"linearizability proper (results equal to some sequential order): needs histories and a sequential oracle; race freedom is necessary for it, not sufficient", "a *Schema handed out by DB.Schema is a live pointer: direct field access by the caller is outside the handle API"}
 	r.Assumptions = []string{"Search and iterator values are owned by the calling goroutine", "user hook implementations do not touch the handle", "a store/map lock held while its map is accessed is the lock of that same instance (methods lock their receiver)"}
 	c := computeClosures(p)
@@ -689,4 +691,35 @@ func spawnFacts(p *Prog, c *Closures, closure *ssa.Function) (map[int]Fact, map[
 	}
 	spawnCache.Store(closure, l)
 	return l.facts, l.cell, l.params
+}
+
+// checkCheckThenAct: no live index mutation on a verdict that predates the last release of the handle lock.
+func checkCheckThenAct(p *Prog, c *Closures, r *Result, rule string) {
+	var jobs []exploreJob
+	for _, f := range apiRoots(p) {
+		if p.GoRoot[f] && (f.Parent() != nil || p.GoOnly[f]) {
+			continue
+		}
+		if cl := c.Of(f); cl.Has(EHookV) && cl.Has(EIdxWLive) {
+			jobs = append(jobs, exploreJob{f, Valuation{Cache: triNo, Async: triNo}})
+		}
+	}
+	if len(jobs) == 0 {
+		r.Report(rule, "-", "write entries", Violated, "no write entry (Validate + live index mutation) found", "", nil, true)
+		return
+	}
+	watch := effs(EOkValid, EOkAcceptTemp)
+	exploreAll(p, c, jobs, okBits.Union(effs(EIdxWLive, EHookV)), r, func(j exploreJob) Listener {
+		return &effListener{p: p, r: r, root: j.root, val: j.val, onEvent: func(l *effListener, x *Explorer, st *State, ev *Event) {
+			if ev.Kind != EvEffect || ev.Eff != EIdxWLive {
+				return
+			}
+			fn := FuncName(l.root)
+			if st.stale.Intersects(watch) {
+				l.bad(rule, fn, "live index mutation on fresh verdicts", "the live index is modified on the strength of "+st.stale.Inter(watch).String()+" obtained before the handle lock was released: a concurrent writer can invalidate the verdict in between, a batch is then cut in two", l.p.Pos(ev.Instr.Pos()), x, st, ev.Instr)
+			} else {
+				l.ok(rule, fn, "live index mutation on fresh verdicts", l.p.Pos(ev.Instr.Pos()))
+			}
+		}}
+	}, nil)
 }
